@@ -173,6 +173,11 @@ class BpHarness:
     def on_cl_send(self, agent, data, tx_params):
         name = self.by_agent.get(id(agent))
         rec = dict(seq=self.wld.seq, t=self.wld.now, data=data, to=(tx_params or {}).get('to'))
+        if rec['to'] == 'FAIL':
+            # fault: the convergence layer refuses the bundle (what a D-Bus error from a dead CL process looks like to the agent)
+            self.wld.count('fault.cl_send_error')
+            self.wld.log('cl-send-error', name, len(data))
+            raise RuntimeError('simulated convergence layer failure')
         self.cl_out[name].append(rec)
         self.wld.log('cl-send', name, rec['to'], data)
         hook = getattr(self, 'link_hook', None)
